@@ -159,8 +159,10 @@ def _node_task(args):
     make = make_world(hname)
     if local:
       sched.explore_local(make, node, bnd, lambda x: oracle(hname, x, res, gran), gran, sched.new_stats())
-    else:
+    elif sched._HANGS[0] < sched.MAX_HANGS:     # (a worker that has already reported hangs stops expanding)
       x = sched.run_node(make, node, gran)
+      if x.hang:
+        sched._HANGS[0] += 1
       oracle(hname, x, res, gran)
       kids = sched.children(x, node[0], bnd)
   except Exception:  # pylint: disable=broad-except
